@@ -89,6 +89,20 @@ theorem Blk.store {a x x' : Cache} {E : Externals} {v : PyVal} {read : Bool} {c 
     subst hf
     exact (h.fwrite ct).2
 
+/-- the file `incr` wrote inside its transaction is recorded as created by the block -/
+theorem Blk.regCreated {a x : Cache} (h : Blk a x) (f : Option Nat)
+    (hf : ∀ g, f = some g → a.nfile ≤ g) : Blk a (x.regCreated f) := by
+  rcases regCreated_cases x f with e | ⟨g, hg, -, e⟩
+  · rw [e]; exact h
+  · rw [e]
+    refine ⟨h.pos, h.depth, h.snap, h.files, h.nfile, ?_⟩
+    intro k hk
+    rcases List.mem_append.1 hk with hk | hk
+    · exact h.created k hk
+    · simp only [List.mem_singleton] at hk
+      subst hk
+      exact .inr (hf _ hg)
+
 theorem Blk.fetchRow {a x : Cache} (h : Blk a x) (E : Externals) (r : Row) (read : Bool) :
     Blk a (x.fetchRow E r read).1 :=
   h.core' (core_fetchRow x E r read)
@@ -258,7 +272,8 @@ theorem incr_blk {a s : Cache} (h : Blk a s) (E : Externals) (now : Int) (k : Py
     · split
       · blk_auto
       · rename_i s' c hst
-        obtain ⟨h', -⟩ := (ht.logSql "selKey").store hst
+        obtain ⟨h', hfile⟩ := (ht.logSql "selKey").store hst
+        have h'' := h'.regCreated c.file hfile
         blk_auto
   | some r =>
     simp only
@@ -268,7 +283,8 @@ theorem incr_blk {a s : Cache} (h : Blk a s) (E : Externals) (now : Int) (k : Py
       · split
         · blk_auto
         · rename_i s' c hst
-          obtain ⟨h', -⟩ := (ht.logSql "selKey").store hst
+          obtain ⟨h', hfile⟩ := (ht.logSql "selKey").store hst
+          have h'' := h'.regCreated c.file hfile
           blk_auto
     · blk_auto
 
